@@ -31,9 +31,9 @@ func c15Alphabet() []string {
 // c15Exec runs one sequence on a real transport with ndest destinations.
 func c15Exec(ndest int, alphabet []string) func(hist []int) (string, string, string, int) {
 	return func(hist []int) (cl, det, key string, steps int) {
-		var sinks []*sink
+		var sinks []*fastSink
 		for i := 0; i < ndest; i++ {
-			sinks = append(sinks, newSink())
+			sinks = append(sinks, newFastSink())
 		}
 		defer func() {
 			for _, s := range sinks {
@@ -127,7 +127,7 @@ func c15Exec(ndest int, alphabet []string) func(hist []int) (string, string, str
 				}
 			}
 			for d, s := range sinks {
-				got := s.wait(len(want[d]))
+				got := s.drain(len(want[d]))
 				if len(got) != len(want[d]) {
 					return "datagram-count", fmt.Sprintf("%v: destination %d received %d datagrams, %d successful flushes", histLabels(alphabet, hist), d, len(got), len(want[d]))
 				}
